@@ -140,6 +140,8 @@ def task_yaml(t, check_kw):
             lines.append("  upgrade: true")
         if t.get("force"):
             lines.append("  force: true")
+        if t.get("extra_args"):
+            lines.append("  extra_args: " + json.dumps(t["extra_args"]))
         lines.append("register: reg")
     if check_kw == "false":
         lines.append("check_mode: false")      # with --check on the command line the task is STILL in check mode
